@@ -520,6 +520,11 @@ def _local_closure(f, e: ast.AST, limit=6) -> list[ast.AST]:
     for a in walk_own(f.node):
         if isinstance(a, ast.Assign) and len(a.targets) == 1 and isinstance(a.targets[0], ast.Name):
             assigns.setdefault(a.targets[0].id, []).append(a.value)
+        elif isinstance(a, ast.Assign) and len(a.targets) == 1 and isinstance(a.targets[0], (ast.Tuple, ast.List)):
+            # (x,) = value / a, b = value: every name depends on the whole value
+            for t in a.targets[0].elts:
+                if isinstance(t, ast.Name):
+                    assigns.setdefault(t.id, []).append(a.value)
     out, seen, work = [e], set(), [(e, 0)]
     while work:
         cur, d = work.pop()
